@@ -21,6 +21,9 @@ func init() { register("C12", "exploration", runC12, replayC12) }
 
 type c12Shape struct {
 	NB, NI, NH, NO int
+	// Rev lists the hidden nodes deepest-first (the k-th hidden node in topological order gets the
+	// (NH-1-k)-th hidden position / id), so that a shallow hidden node comes LAST in the node list
+	Rev bool
 }
 
 type c12Edge struct{ from, to int } // indices into node list
@@ -38,7 +41,12 @@ func (s c12Shape) role(i int) network.NodeNeuronType {
 	}
 	return network.HiddenNeuron
 }
-func (s c12Shape) hidden(k int) int { return s.NB + s.NI + s.NO + k }
+func (s c12Shape) hidden(k int) int {
+	if s.Rev {
+		return s.NB + s.NI + s.NO + (s.NH - 1 - k)
+	}
+	return s.NB + s.NI + s.NO + k
+}
 func (s c12Shape) output(k int) int { return s.NB + s.NI + k }
 
 func (s c12Shape) edges() []c12Edge {
@@ -441,25 +449,27 @@ func seqInts(n int) []int {
 func runC12(c *Ctx) {
 	allActs := seqInts(len(c12AllActs) + 3)
 	fewActs := []int{3, 13, 10, 4, 19, 17, 20, 21, 22} // steepened sigmoid, linear, tanh, approx sigmoid, step, sign, 3 mixed
-	plans := []c12Plan{{c12Shape{1, 1, 2, 1}, []int{0, 1, 2, 3}, allActs, c12Inputs(1, true)},
-		{c12Shape{2, 1, 1, 1}, []int{0, 1}, fewActs, c12Inputs(1, true)},
-		{c12Shape{0, 1, 2, 1}, []int{0, 2}, fewActs, c12Inputs(1, true)},
-		{c12Shape{1, 2, 2, 1}, []int{0, 3}, fewActs, c12Inputs(2, false)},
-		{c12Shape{1, 1, 2, 2}, []int{1}, fewActs, c12Inputs(1, true)}}
+	plans := []c12Plan{{c12Shape{NB: 1, NI: 1, NH: 2, NO: 1}, []int{0, 1, 2, 3}, allActs, c12Inputs(1, true)},
+		{c12Shape{NB: 2, NI: 1, NH: 1, NO: 1}, []int{0, 1}, fewActs, c12Inputs(1, true)},
+		{c12Shape{NB: 0, NI: 1, NH: 2, NO: 1}, []int{0, 2}, fewActs, c12Inputs(1, true)},
+		{c12Shape{NB: 1, NI: 2, NH: 2, NO: 1}, []int{0, 3}, fewActs, c12Inputs(2, false)},
+		{c12Shape{NB: 1, NI: 1, NH: 2, NO: 2}, []int{1}, fewActs, c12Inputs(1, true)},
+		{c12Shape{NB: 1, NI: 1, NH: 2, NO: 1, Rev: true}, []int{0, 1}, fewActs, c12Inputs(1, true)},
+		{c12Shape{NB: 0, NI: 1, NH: 3, NO: 1, Rev: true}, []int{2}, []int{3, 13, 21}, c12Inputs(1, true)}}
 	if !c.Quick() {
 		plans = append(plans,
-			c12Plan{c12Shape{0, 1, 2, 1}, []int{0, 1, 2, 3}, allActs, c12Inputs(1, true)},
-			c12Plan{c12Shape{1, 2, 2, 1}, []int{0, 1, 2, 3}, allActs, c12Inputs(2, true)},
-			c12Plan{c12Shape{1, 1, 3, 1}, []int{0, 1}, allActs, c12Inputs(1, true)},
-			c12Plan{c12Shape{1, 1, 2, 2}, []int{0, 1}, allActs, c12Inputs(1, true)},
-			c12Plan{c12Shape{2, 1, 2, 1}, []int{0, 1}, fewActs, c12Inputs(1, true)},
-			c12Plan{c12Shape{1, 2, 2, 2}, []int{0, 3}, fewActs, c12Inputs(2, false)},
-			c12Plan{c12Shape{0, 2, 2, 2}, []int{1}, fewActs, c12Inputs(2, false)},
+			c12Plan{c12Shape{NB: 0, NI: 1, NH: 2, NO: 1}, []int{0, 1, 2, 3}, allActs, c12Inputs(1, true)},
+			c12Plan{c12Shape{NB: 1, NI: 2, NH: 2, NO: 1}, []int{0, 1, 2, 3}, allActs, c12Inputs(2, true)},
+			c12Plan{c12Shape{NB: 1, NI: 1, NH: 3, NO: 1}, []int{0, 1}, allActs, c12Inputs(1, true)},
+			c12Plan{c12Shape{NB: 1, NI: 1, NH: 2, NO: 2}, []int{0, 1}, allActs, c12Inputs(1, true)},
+			c12Plan{c12Shape{NB: 2, NI: 1, NH: 2, NO: 1}, []int{0, 1}, fewActs, c12Inputs(1, true)},
+			c12Plan{c12Shape{NB: 1, NI: 2, NH: 2, NO: 2}, []int{0, 3}, fewActs, c12Inputs(2, false)},
+			c12Plan{c12Shape{NB: 0, NI: 2, NH: 2, NO: 2}, []int{1}, fewActs, c12Inputs(2, false)},
 		)
 	}
 	desc := ""
 	for _, p := range plans {
-		desc += fmt.Sprintf("(bias=%d,in=%d,hidden=%d,out=%d: 2^%d edge sets x %d weight rotations x %d activation patterns x %d inputs) ", p.shape.NB, p.shape.NI, p.shape.NH, p.shape.NO, len(p.shape.edges()), len(p.wrots), len(p.acts), len(p.inputs))
+		desc += fmt.Sprintf("(bias=%d,in=%d,hidden=%d,out=%d%s: 2^%d edge sets x %d weight rotations x %d activation patterns x %d inputs) ", p.shape.NB, p.shape.NI, p.shape.NH, p.shape.NO, map[bool]string{true: " hidden nodes listed deepest-first", false: ""}[p.shape.Rev], len(p.shape.edges()), len(p.wrots), len(p.acts), len(p.inputs))
 	}
 	c.Rule = "all feed-forward edge sets over the listed node sets in which every neuron is reachable from a sensor: " + desc + "x 7 solver entry points on fresh instances (for two-output shapes also on a network rebuilt through NewNetwork with the output list reversed), and a sequence of 4 input vectors on one reused instance per entry point without flush, vs Kahn-order evaluation (1e-11 relative); weights from {0.5,-1.5,0.25,2} by rotation; non-trivial = distinct (shape, edge set) with all neurons reachable"
 	type job struct {
@@ -502,7 +512,7 @@ func runC12(c *Ctx) {
 							ord := int64(bitsSet(mask))<<40 | int64(j.pi)<<32 | int64(mask)
 							cs.Input = seq[0]
 							c.ViolateOrd("C12/"+f[0], ord, f[1]+" for "+cs.describe(), &Replay{Scenario: "net", Params: map[string]interface{}{
-								"nb": p.shape.NB, "ni": p.shape.NI, "nh": p.shape.NH, "no": p.shape.NO, "mask": mask, "wrot": wr, "act": ap, "input": seq[0], "reuse": true}})
+								"nb": p.shape.NB, "ni": p.shape.NI, "nh": p.shape.NH, "no": p.shape.NO, "rev": b2i(p.shape.Rev), "mask": mask, "wrot": wr, "act": ap, "input": seq[0], "reuse": true}})
 						}
 					}
 					for _, in := range p.inputs {
@@ -528,7 +538,7 @@ func runC12(c *Ctx) {
 						for _, f := range fails {
 							ord := int64(bitsSet(mask))<<40 | int64(j.pi)<<32 | int64(mask)
 							c.ViolateOrd("C12/"+f[0], ord, f[1]+" for "+cs.describe(), &Replay{Scenario: "net", Params: map[string]interface{}{
-								"nb": p.shape.NB, "ni": p.shape.NI, "nh": p.shape.NH, "no": p.shape.NO, "mask": mask, "wrot": wr, "act": ap, "input": in}})
+								"nb": p.shape.NB, "ni": p.shape.NI, "nh": p.shape.NH, "no": p.shape.NO, "rev": b2i(p.shape.Rev), "mask": mask, "wrot": wr, "act": ap, "input": in}})
 						}
 					}
 				}
@@ -545,7 +555,7 @@ func runC12(c *Ctx) {
 		}
 		c.mu.Unlock()
 	})
-	c.Sample(c12Case{c12Shape{1, 1, 2, 1}, 0b110100101, 0, 13, []float64{2}}.describe())
+	c.Sample(c12Case{c12Shape{NB: 1, NI: 1, NH: 2, NO: 1}, 0b110100101, 0, 13, []float64{2}}.describe())
 	c.Sample(map[string]interface{}{"solvers": c12Solvers})
 	c.Assume("weights come from a non-saturating 4-value alphabet; cases where a step/sign neuron's input is within 1e-9 of its jump and not exactly representable are skipped (summation order is legitimately free there) and counted")
 }
@@ -559,7 +569,7 @@ func bitsSet(m uint64) int {
 }
 
 func replayC12(c *Ctx, rp *Replay) (bool, string) {
-	cs := c12Case{Shape: c12Shape{paramInt(rp, "nb"), paramInt(rp, "ni"), paramInt(rp, "nh"), paramInt(rp, "no")},
+	cs := c12Case{Shape: c12Shape{NB: paramInt(rp, "nb"), NI: paramInt(rp, "ni"), NH: paramInt(rp, "nh"), NO: paramInt(rp, "no"), Rev: paramInt(rp, "rev") == 1},
 		WRot: paramInt(rp, "wrot"), ActPat: paramInt(rp, "act")}
 	if v, ok := rp.Params["mask"].(float64); ok {
 		cs.Mask = uint64(v)
